@@ -1434,6 +1434,11 @@ func genEvents(r *rand.Rand, id string, size int, total int) []string {
 		return g.lines
 	}
 	g.add("scn %s kind=none acl=* peers=", id)
+	if g.pick(4) == 0 {
+		// a lagging legacy subscriber unsubscribes while an emitter waits on its full subscription
+		g.add("ewedge %d", 6+g.pick(5))
+		return g.lines
+	}
 	g.add("enew")
 	nsub := 1 + g.pick(2)
 	names := []string{"a", "b"}[:nsub]
